@@ -21,6 +21,7 @@ from . import common
 from .conc import reachable_transports
 
 MOD = "mc.props.c08"
+POOL_ONLY = ("_sync/connection_pool.py",)
 TRACE_FILES = ("_sync/connection_pool.py", "_sync/connection.py", "_sync/http11.py", "_sync/http2.py", "_sync/http_proxy.py", "httpcore/_synchronization.py")
 
 
@@ -40,7 +41,9 @@ class ThreadHarness:
     def run(self, chooser) -> Execution:
         ct = self.ct
         topo = scen.Topology(scen.CONN_TYPES[ct], framing=self.framing)
-        w = TWorld(chooser, topo.router, granularity=self.granularity, trace_files=TRACE_FILES)
+        # "pool-line": line pre-emption inside connection_pool.py only (few enough points for pre-emption bound 2)
+        w = TWorld(chooser, topo.router, granularity="line" if self.granularity == "pool-line" else self.granularity,
+                   trace_files=POOL_ONLY if self.granularity == "pool-line" else TRACE_FILES)
         pool = scen.make_pool(ct, w.backend, "sync", max_connections=self.mc, max_keepalive_connections=self.mk)
         N = self.mc
         mon = {"max_list": 0, "max_open": 0}
@@ -187,6 +190,10 @@ def scenarios(tier):
         out.append((S("h11", ["req:a:w", "req:b:w", "hold:b", "req:a"], max_connections=2, max_keepalive=1, granularity=gran, server_drop="a"), bound))
         out.append((S("h11", ["req:a", "close-pool"], max_connections=2, granularity=gran), bound))
         out.append((S("h11", ["req:a", "req:a"], max_connections=1, framing="connclose", granularity=gran), bound))
+    # two pre-emptions at source lines of the pool itself (lost wake-ups between a waiter's check and its wait need two)
+    out.append((S("h11", ["req:a:w", "req:a", "req:a"], max_connections=1, granularity="pool-line"), 2))
+    out.append((S("h11", ["req:a", "req:a"], max_connections=1, granularity="pool-line"), 2))
+    out.append((S("h11", ["hold:a", "req:a"], max_connections=1, granularity="pool-line"), 2))
     # three threads: one holds the only connection, two queue behind it
     out.append((S("h11", ["hold:a", "req:a", "req:a"], max_connections=1, granularity="sync"), sync_bound))
     out.append((S("h11", ["req:a", "req:b", "req:a"], max_connections=2, max_keepalive=0, granularity="sync"), sync_bound))
